@@ -912,11 +912,20 @@ class Interp:
         self._call_depth += 1
         try:
             body = [ast.Return(value=node.body, lineno=node.lineno, col_offset=0)] if isinstance(node, ast.Lambda) else node.body
-            self.exec_block(body, fr, st)
+            end_state = self.exec_block(body, fr, _State(st.conds, st.loops))
         finally:
             self._call_depth -= 1
             self._stack.pop()
         rets = fr.returns
+        # what holds on EVERY normal return of the callee holds in the caller from here on (a helper that validates and
+        # raises otherwise): extend the caller's path condition in place
+        ends = [c for c, _ in rets]
+        if end_state is not None:
+            ends.append(tuple(end_state.conds[fr.base_conds:]))
+        if ends:
+            common = [c for c in ends[0] if all(c in e for e in ends[1:])]
+            if common:
+                st.conds = st.conds + tuple(c for c in common if c not in st.conds)
         if not rets:
             return NONE
         # fold the returns into a conditional term (the last one is the default)
